@@ -395,7 +395,7 @@ package vanguard
 //@ func (*message).decompress
 //@   requires m != nil && m.buf != nil && validOp(op)
 //@   requires[C14] owned(m.buf)
-//@   ensures[C14] owned(m.buf) && (m.buf != old(m.buf) ==> !owned(old(m.buf)) && !wasOwned(m.buf))
+//@   ensures[C14,C15] owned(m.buf) && (m.buf != old(m.buf) ==> !owned(old(m.buf)) && !wasOwned(m.buf))
 //@   atcall[C01] (*compressionPool).decompressLimit: arg(0) == ite(m.isRequest, op.client.reqCompression, op.client.respCompression) && arg(2) == m.buf
 //@   track pd = (*compressionPool).decompressLimit
 //@   ensures[C01] pd == ite(ite(m.isRequest, op.client.reqCompression, op.client.respCompression) != nil && old(blen(m.buf)) != 0, 1, 0)
@@ -408,7 +408,7 @@ package vanguard
 //@ func (*message).compress
 //@   requires m != nil && m.buf != nil && validOp(op)
 //@   requires[C14] owned(m.buf)
-//@   ensures[C14] owned(m.buf) && (m.buf != old(m.buf) ==> !owned(old(m.buf)) && !wasOwned(m.buf))
+//@   ensures[C14,C15] owned(m.buf) && (m.buf != old(m.buf) ==> !owned(old(m.buf)) && !wasOwned(m.buf))
 //@   atcall[C01] (*compressionPool).compress: arg(0) == ite(m.isRequest, op.server.reqCompression, op.server.respCompression) && arg(2) == m.buf
 //@   track pc = (*compressionPool).compress
 //@   ensures[C01] pc == ite(ite(m.isRequest, op.server.reqCompression, op.server.respCompression) != nil, 1, 0)
@@ -431,7 +431,7 @@ package vanguard
 //@ func (*message).encode
 //@   requires m != nil && m.buf != nil && validOp(op) && prepOK(op)
 //@   requires[C14] owned(m.buf)
-//@   ensures[C14] owned(m.buf) && (m.buf != old(m.buf) ==> !owned(old(m.buf)) && !wasOwned(m.buf))
+//@   ensures[C14,C15] owned(m.buf) && (m.buf != old(m.buf) ==> !owned(old(m.buf)) && !wasOwned(m.buf))
 //@   atcall[C01] (vanguard.Codec).MarshalAppend: arg(0) == ite(m.isRequest, op.server.codec, op.client.codec)
 //@   track mar = (vanguard.Codec).MarshalAppend
 //@   track prepq = (vanguard.serverBodyPreparer).prepareMarshalledRequest
@@ -538,8 +538,10 @@ package vanguard
 
 //@ func httpExtractContentLength
 //@   ensures[C03] err == nil ==> r0 >= -1
+//@   ensures[C03,C11] err == nil ==> hdr(headers, "Content-Length") == ""
+//@   ensures[C05] hdrSameExcept(headers, "Content-Length")
 //@   ensures err != nil ==> r0 == 0
-//@   modifies #LIB
+//@   modifies mapobj(headers), #LIB0
 
 //@ func (*errorWriter).Close
 //@   atcall[C10] (*compressionPool).decompressLimit: arg(3) == limitOf(e.rw.op)
@@ -852,7 +854,7 @@ package vanguard
 //@   track served = (net/http.Handler).ServeHTTP
 //@   track reports = (*operation).reportError
 //@   track closes = (*responseWriter).close
-//@   ensures[C18] served + reports == 1 && closes == served
+//@   ensures[C18,C11,C03] served + reports == 1 && closes == served
 //@   atcall[C18] (net/http.Handler).ServeHTTP: served == 1 && reports == 0 && closes == 0 && arg(0) == o.methodConf.handler && arg(2) == o.request
 //@   atcall[C03,C09,C16] (net/http.Handler).ServeHTTP: typeIs(arg(1), *responseWriter) && arg(1) == o.writer && rwFull(unbox(arg(1), *responseWriter)) && unbox(arg(1), *responseWriter).op == o && unbox(arg(1), *responseWriter).delegate == old(o.writer)
 //@   atcall[C08,C10] (net/http.Handler).ServeHTTP: arg(2).Body == old(o.request.Body) || (typeIs(arg(2).Body, *envelopingReader) && validER(unbox(arg(2).Body, *envelopingReader)) && unbox(arg(2).Body, *envelopingReader).rw == unbox(arg(1), *responseWriter)) || (typeIs(arg(2).Body, *transformingReader) && validTR(unbox(arg(2).Body, *transformingReader)) && unbox(arg(2).Body, *transformingReader).rw == unbox(arg(1), *responseWriter))
